@@ -175,6 +175,7 @@ type Cases struct {
 	Imports  string // e.g. "From Sdfx Require Import Algo.Canon."
 	Type     string // Coq type of a case, e.g. "Canon.case"
 	Fn       string // function : list case -> list N
+	InfoFn   string // optional: cases agreeing only within tolerance (printed as I_<kind>, never an alarm)
 	PerShard int
 	items    []string
 }
@@ -197,6 +198,9 @@ func (c *Cases) Write(dir string) error {
 		b.WriteString(strings.Join(c.items[i:j], ";\n"))
 		b.WriteString("\n].\n")
 		fmt.Fprintf(&b, "Definition M_%s := Eval vm_compute in (%s cases).\nPrint M_%s.\n", c.Kind, c.Fn, c.Kind)
+		if c.InfoFn != "" {
+			fmt.Fprintf(&b, "Definition I_%s := Eval vm_compute in (%s cases).\nPrint I_%s.\n", c.Kind, c.InfoFn, c.Kind)
+		}
 		name := fmt.Sprintf("cases_%s_%d.v", c.Kind, k)
 		if err := os.WriteFile(filepath.Join(dir, name), []byte(b.String()), 0o644); err != nil {
 			return err
